@@ -9,8 +9,9 @@ package regular
 //vsym:model (*golang.org/x/crypto/ssh.Certificate).Type m03CertType
 //vsym:replay same-harness
 //vsym:expect-cover C03.success C03.second-generation-replaces-first C03.foreign-identity-kept C03.labelled-identity-removed C03.failed-before-signing C03.agent-fault
-//vsym:bound H03_provision: 1..2 runs (thorough 1..3) of gensign.Run with the real regular handler (Authenticate stubbed: C01's subject); 0..1 (thorough 0..2) pre-existing agent identities whose comments are symbolic strings of length 5, 17 or 18 (thorough also 0) (so the handler name, a truncation and super-strings are all values the solver may pick); the CA returns 0..2 keys per request, each a certificate or a plain key; each run may fail at the CA or at one of its first 3 (thorough 5) agent operations; validity symbolic in [1, 315360000]
+//vsym:bound H03_provision: 1..2 runs of gensign.Run with the real regular handler (Authenticate stubbed: C01's subject); 0..1 (thorough 0..2) pre-existing agent identities whose comments are symbolic strings of length 5, 17 or 18 (thorough also 0) (so the handler name, a truncation and super-strings are all values the solver may pick); the CA returns 0..2 keys per request, each a certificate or a plain key; each run may fail at the CA or at one of its first 3 (thorough 5) agent operations; validity symbolic in [1, 315360000]
 //vsym:bound H03_lifetime: validity any value in [1, 315360000] (the statement's range: up to 10 years); beyond it uint32(validity)+3600 wraps, which is outside the claim
+//vsym:assume a refused agent operation answers with the protocol's generic failure ("agent: failure", what x/crypto's client returns for SSH_AGENT_FAILURE)
 //vsym:assume the forwarded agent is a stateful model of the ssh-agent protocol (identity list with blob, comment, lifetime); key generation and JSON as in C02; (*ssh.Certificate).Type is modelled as a '-cert-' type name
 
 import (
@@ -76,7 +77,7 @@ func (a *m03Agent) fault() bool {
 
 func (a *m03Agent) List() ([]*ag.Key, error) {
 	if a.fault() {
-		return nil, errors.New("model: agent list failed")
+		return nil, errors.New("agent: failure")
 	}
 	var out []*ag.Key
 	for _, id := range a.ids {
@@ -86,7 +87,7 @@ func (a *m03Agent) List() ([]*ag.Key, error) {
 }
 func (a *m03Agent) Add(k ag.AddedKey) error {
 	if a.fault() {
-		return errors.New("model: agent add failed")
+		return errors.New("agent: failure")
 	}
 	a.adds = append(a.adds, k)
 	a.nextBlob++
@@ -99,7 +100,7 @@ func (a *m03Agent) Add(k ag.AddedKey) error {
 }
 func (a *m03Agent) Remove(key ssh.PublicKey) error {
 	if a.fault() {
-		return errors.New("model: agent remove failed")
+		return errors.New("agent: failure")
 	}
 	a.removes++
 	blob := key.Marshal()
@@ -197,9 +198,6 @@ func H03_provision() {
 	param := &csr.ReqParam{LogName: "user", TransID: "t", ClientIP: "1.2.3.4", ReqUser: "u", ReqHost: "h", Attrs: &message.Attributes{}}
 
 	maxRuns := 2
-	if vThorough() {
-		maxRuns = 3
-	}
 	runs := 1 + vChoose(maxRuns, "runs")
 	var prevCerts []*ssh.Certificate // certificates delivered by the last successful run
 	for run := 0; run < runs; run++ {
@@ -258,10 +256,13 @@ func H03_provision() {
 			if failedBeforeDelivery {
 				// a run that fails before or during signing leaves previously provisioned certificates in place
 				vAssert(agent.removes == removes0, "C03.failed-run-removes-nothing")
-				for _, c := range prevCerts {
+				for _, b := range before {
+					if b.cert == nil {
+						continue
+					}
 					found := false
 					for _, id := range agent.ids {
-						if id.cert == c {
+						if id.cert == b.cert {
 							found = true
 						}
 					}
@@ -270,6 +271,13 @@ func H03_provision() {
 				vReach("C03.failed-before-signing")
 			} else {
 				vReach("C03.agent-fault")
+				// a delivery that failed half-way may have replaced the earlier generation already
+				prevCerts = nil
+				for _, id := range agent.ids {
+					if id.cert != nil {
+						prevCerts = append(prevCerts, id.cert)
+					}
+				}
 			}
 			continue
 		}
